@@ -93,7 +93,7 @@ claim("C07", "model_checking",
       "crossed with the whole parameter campaign; both routes are run and TLC checks field-by-field agreement at the resolution class of the less accurate route.",
       REL_NOTE, REL_TECH, "DESIGN.md 9 C07")
 claim("C08", "model_checking",
-      "For 17 families TLC computes from the dimension vectors of spec/Relations.tla (exponents of M, L, T, Theta in exact rationals, configuration dependent for Sedov and Coggeshall) "
+      "For 30 families (thirteen Coggeshall problems, both Riemann solvers and Guderley among them) TLC computes from the dimension vectors of spec/Relations.tla (exponents of M, L, T, Theta in exact rationals, configuration dependent for Sedov and Coggeshall) "
       "how every constructor parameter is rescaled for two independent scale-factor sets; the harness runs the solver in both unit systems and TLC checks that every output field "
       "changed by the factor its own dimension vector dictates (tolerance 5e-5: the same algorithm on rescaled inputs).",
       REL_NOTE, REL_TECH, "DESIGN.md 9 C08")
